@@ -655,6 +655,8 @@ def run(ctx):
     rule_reply_shape(ctx)
     from . import c08
     c08.rule_control_skip(ctx)
+    from .common import rule_explicit_partitions_kept
+    rule_explicit_partitions_kept(ctx, "handout")
     from .common import rule_instance_state
     rule_instance_state(ctx, ("aiokafka.consumer.",))
     rep.nd("equality of the delivered sequence with the broker's visible log for all log shapes (needs the record codec's values)")
